@@ -780,6 +780,13 @@ class C14(Prop):
       self._verdicts[key] = self._is_aligned(spec, d)
     return self._verdicts[key]
 
+  def bound_ok(self, spec_json, d):
+    try:
+      nums, bel = self.flat(d)
+      return bel == self.positional_beliefs(spec_json, nums)
+    except Exception:     # pylint: disable=broad-except
+      return False
+
   def _is_valid(self, spec, d):
     try:
       spec.validate(d)
@@ -844,7 +851,12 @@ class C14(Prop):
           if any(v > incounts.get(k, 0) for k, v in counts.items()):
             fail('selector-duplicates:' + c['cls'], '%s returned an input more often than it was given' % c['cls'])
       elif c['mod'] in ('mutators', 'recombinators') and dna_in:
-        if all(self.is_valid(spec, d) and self.is_aligned(spec, d) for d in ins):
+        # precondition "valid and correctly aligned": also every node must be *bound* to the decision
+        # point of its position (a Swap of two equal-valued entries leaves to_dict() unchanged although
+        # the nodes are bound cross-wise; what a later operator makes of that is F21, not its own fault)
+        if not all(self.bound_ok(case['spec'], d) for d in ins):
+          tainted = True
+        elif all(self.is_valid(spec, d) and self.is_aligned(spec, d) for d in ins):
           for d in outs:
             if not isinstance(d, pg.DNA) or not self.is_valid(spec, d):
               fail('invalid-child:' + c['cls'], '%s produced %r, not valid for the spec, from valid parents %r' % (
@@ -880,7 +892,7 @@ class C14(Prop):
       fail('nondeterministic', 'two runs with equal seeds differ: %s vs %s' % (
           json.dumps(model)[:300], json.dumps(model2)[:300]))
     has_oo = any(p not in MODEL_PRIMS for p in prims)
-    if not has_oo:
+    if not has_oo and str(os.getpid()) != self._token:     # only pool workers use the side channel
       self._side_put(case, run['log'])
     return {'model': None if has_oo else model, 'obs': model, 'oracle': run['log'], 'checks': checks,
             'tainted': tainted, 'n_calls': len(run['calls']), 'n_draws': len(run['log'])}
